@@ -1,2 +1,3 @@
 pub mod lex;
 pub mod parse;
+pub mod value;
